@@ -347,7 +347,8 @@ def extract():
 
     # ---- derive macro: comparator of the generated range assertion ------------------------------
     dl = strip_comments(read("cstree-derive/src/lib.rs"))
-    m = re.search(r"assert!\s*\(\s*raw\.0\s*(<=|<)\s*#variant_count", dl)
+    # the guard must be unconditional: `debug_assert!` (compiled out of optimised builds) is not the same statement
+    m = re.search(r"(?<![A-Za-z0-9_])assert!\s*\(\s*raw\.0\s*(<=|<)\s*#variant_count", dl)
     facts["deriveAssertLt"] = None if not m else (m.group(1) == "<")
     m = re.search(r"let\s+variant_count\s*=\s*syntax_kind_enum\.variants\.len\(\)\s*as\s+u32\s*;", dl)
     facts["deriveCountIsVariantCount"] = bool(m)
